@@ -89,7 +89,7 @@ def variant_labels(v):
     return ["var:" + k for k in ks] if ks else ["var:identity"]
 
 
-def build_layer(d):
+def build_layer(d, retry=0):
     """Base layer: ase.Atoms with pbc (T,T,F), c = 20 A perpendicular to the plane, atoms centred at c/2."""
     from ase import Atoms
     import ase.build
@@ -109,15 +109,18 @@ def build_layer(d):
     a, b, ga = inplane(sg, d["a"], d["b"], d["gamma"])
     c = 20.0
     pts, nums = [], []
-    for o in d["orbits"]:
-        p = np.array([o["xy"][0], o["xy"][1], o["zrel"] * d["thick"] / c]) % 1.0
+    for k, o in enumerate(d["orbits"]):
+        xy = list(o["xy"])
+        if retry and not all(x in (0.0, 0.5, 1 / 3, 2 / 3) for x in xy):
+            xy = [0.05 + 0.9 * (((x - 0.05) / 0.9 + gc.PHI[(2 * k + i + 5 * retry) % len(gc.PHI)]) % 1.0) for i, x in enumerate(xy)]
+        p = np.array([xy[0], xy[1], o["zrel"] * d["thick"] / c]) % 1.0
         ob = spgref.orbit(R, t, p)
         pts.append(ob)
         nums += [o["Z"]] * len(ob)
     frac = np.vstack(pts)
     # spacing by construction: at least ~5 A^2 of in-plane area per atom
     area = a * b * np.sin(np.radians(ga))
-    s = max(1.0, np.sqrt(5.0 * len(nums) / area))
+    s = max(1.0, np.sqrt(7.0 * len(nums) / area))
     cell = gc.cellpar_to_cell(a * s, b * s, c, 90.0, 90.0, ga)
     pos = frac @ cell
     pos[:, 2] = (pos[:, 2] + c / 2) % c
@@ -155,16 +158,23 @@ def apply_variant(at, v):
 def conditioned_layer(d, out):
     """Base layer or None (out.discard set): near-collisions and ill-conditioned symmetry are discarded and counted."""
     import spglib
-    at = build_layer(d)
-    if len(at) > 100:
-        out.discard = "too-big"
-        return None
-    if len(at) > 1:
-        D = at.get_all_distances(mic=True)
-        np.fill_diagonal(D, 9.0)
-        if D.min() < 0.7:
-            out.discard = "too-close"
+    for retry in range(5):
+        at = build_layer(d, retry)
+        if len(at) > 100:
+            out.discard = "too-big"
             return None
+        close = False
+        if len(at) > 1:
+            D = at.get_all_distances(mic=True)
+            np.fill_diagonal(D, 9.0)
+            close = D.min() < 0.7
+        if not close:
+            break
+        if "named" in d:
+            break
+    if close:
+        out.discard = "too-close"
+        return None
     cellt = (np.asarray(at.get_cell()), at.get_scaled_positions(), at.get_atomic_numbers())
     d1 = spglib.get_symmetry_dataset(cellt, symprec=1e-4)
     d2 = spglib.get_symmetry_dataset(cellt, symprec=1e-2)
